@@ -11,6 +11,14 @@ var vrfSizes = []int{0, 1, 2, 99, 100, 101, 199, 200, 201}
 // vrfIDs: n strictly increasing symbolic 64-bit ids (any values, including the top of the range).
 func vrfIDs(n int) []uint64 {
 	ids := make([]uint64, n)
+	if v.Param("dense", 0) == 1 {
+		// consecutive concrete ids, as the id allocator hands them out: a fully concrete run that stays
+		// decidable when a change breaks the successor structure the symbolic runs rely on (e.g. id+2)
+		for i := range ids {
+			ids[i] = 1000 + uint64(i)
+		}
+		return ids
+	}
 	for i := range ids {
 		ids[i] = v.Uint64("id")
 		if i > 0 {
@@ -134,7 +142,7 @@ func VerifC17Prune() {
 		ver        uint64
 	}
 	layouts := [][]rec{
-		{{nil, []byte("m"), 0}, {[]byte("m"), nil, 0}, {nil, nil, 0}},             // a split pair plus a merged / pre-split record
+		{{nil, []byte("m"), 0}, {[]byte("m"), nil, 0}, {nil, nil, 0}},                 // a split pair plus a merged / pre-split record
 		{{nil, []byte("g"), 0}, {[]byte("c"), []byte("p"), 0}, {[]byte("p"), nil, 0}}, // a middle record overlapping its left neighbour
 		{{nil, []byte("m"), 0}, {[]byte("m"), nil, 0}, {[]byte("m"), []byte("t"), 0}}, // a leftover inside the right one
 	}
@@ -176,3 +184,7 @@ func VerifC17Prune() {
 	}
 	v.Reach("end")
 }
+
+// VerifC17LoadStoresDense / VerifC17LoadRegionsDense: the same loads with consecutive concrete ids (param dense=1).
+func VerifC17LoadStoresDense()  { VerifC17LoadStores() }
+func VerifC17LoadRegionsDense() { VerifC17LoadRegions() }
